@@ -31,9 +31,9 @@ def findings_table():
 
 
 def seeds_table():
-    rows = ['| seed | what the change does / needs | caught with a failing input by | caught without input by | not caught by | note |',
-            '|---|---|---|---|---|---|']
-    n = caught = weak = missed = 0
+    rows = ['| seed | what the change does / needs | own check on /repo itself | caught with a failing input by | caught without input by | not caught by | note |',
+            '|---|---|---|---|---|---|---|']
+    n = caught = weak = missed = own_in = own_weak = own_silent = 0
     for mp in sorted(glob.glob(V + '/seeded/C*-*/meta.json')):
         sid = os.path.basename(os.path.dirname(mp))
         m = json.load(open(mp))
@@ -45,14 +45,30 @@ def seeds_table():
         if 'port_note' in m or m.get('reconfirmed_on_repaired_tree', {}).get('patch', '').startswith('ported'):
             note = (note + '; ' if note else '') + 'ported to the repaired tree'
         summ = ((m.get('summary') or '') + ' NEEDS: ' + (m.get('what_it_needs_to_manifest') or '')).replace('\n', ' ').replace('|', '/')[:260]
-        rows.append('| %s | %s | %s | %s | %s | %s |' % (sid, summ, ', '.join(c) or '—', ', '.join(w) or '—', ', '.join(s) or '—', note))
+        ori = m.get('on_repo_itself') or {}
+        if not ori:
+            own = '(not run)'
+        elif ori.get('error'):
+            own = 'patch does not apply'
+        elif ori.get('violation') and not ori.get('no_failing_input_found'):
+            own = 'VIOLATION with input'
+        elif ori.get('violation'):
+            own = 'VIOLATION, no input'
+        else:
+            own = 'silent'
+        rows.append('| %s | %s | %s | %s | %s | %s | %s |' % (sid, summ, own, ', '.join(c) or '—', ', '.join(w) or '—', ', '.join(s) or '—', note))
         if not note.startswith('superseded'):
+            own_in += own == 'VIOLATION with input'
+            own_weak += own == 'VIOLATION, no input'
+            own_silent += own == 'silent'
             n += 1
             caught += bool(c)
             weak += bool(w and not c)
             missed += not (c or w)
-    head = ('%d live seeded changes: %d caught with a concrete failing input by at least one check, %d only as '
-            '"no-failing-input-found", %d not caught.\n\n' % (n, caught, weak, missed))
+    head = ('%d live seeded changes. Scratch-copy runs (own property and the properties anchored in the touched files): %d caught '
+            'with a concrete failing input by at least one check, %d only as "no-failing-input-found", %d not caught. Own property\'s '
+            'check with the patch applied to /repo itself (tools/run_repo_seeds.py): %d VIOLATION with a failing input, %d VIOLATION '
+            'without input, %d silent.\n\n' % (n, caught, weak, missed, own_in, own_weak, own_silent))
     return head + '\n'.join(rows) + '\n'
 
 
